@@ -325,3 +325,8 @@ brk("c05-objects-group-not-reset", ["C05"], PRP, "            same_type_objects 
 brk("c05-objects-unknown-type-object", ["C05"], PRP, "                    name: PDDLObject(name=name, type=self.domain.types[objects_type])\n", "                    name: PDDLObject(name=name, type=self.domain.types.get(objects_type, self.domain.types[\"object\"]))\n", {"C05": ["C05.typedlist"]})
 brk("c06-types-group-not-reset", ["C06"], DP, "\n            same_types_objects = []\n            index += 2", "\n            index += 2", {"C06": ["C06.typedlist"]})
 twin("t-pu-signature-clear", ["C01"], PU, "            grouped_params = []\n\n        else:", "            grouped_params = list()\n\n        else:", "reset through list()")
+
+# ------------------------------------------------------------------------------------------------ frame (C03)
+brk("c03-delete-by-name", ["C03"], GE, "                if (\n                    state_predicate.untyped_representation\n                    == positive_predicate.untyped_representation\n                ):", "                if state_predicate.name == positive_predicate.name:", {"C03": ["C03.frame"]}, "a delete effect removes some fact of the same predicate")
+brk("c03-delete-unguarded", ["C03"], GE, "                if (\n                    state_predicate.untyped_representation\n                    == positive_predicate.untyped_representation\n                ):", "                if True:", {"C03": ["C03.frame"]})
+brk("c03-add-under-wrong-key", ["C03"], GE, "            lifted_predicate_str = predicate.lifted_untyped_representation\n", "            lifted_predicate_str = predicate.untyped_representation\n", {"C03": ["C03.frame"]})
